@@ -459,9 +459,9 @@ def lexFraction (r1 : List Nat) : Except (List Nat) (List Nat) :=
   | 46 :: t => if headIs (· = 95) t then .error r1 else .ok (radixRun 10 t).2
   | _ => .ok r1
 
-/-- the exponent: `e`/`E` is consumed unconditionally on this path, then an optional sign, then the
+/-- the exponent body (entered at an exponent marker): `e`/`E` is consumed, then an optional sign, then the
     digits; the flag says that no digit followed (`f64::from_str` then fails). -/
-def lexExponent (r2 : List Nat) : Except (List Nat) (List Nat × Bool) :=
+def lexExponentBody (r2 : List Nat) : Except (List Nat) (List Nat × Bool) :=
   match r2 with
   | e :: t =>
     if isE e then
@@ -480,6 +480,10 @@ def lexExponent (r2 : List Nat) : Except (List Nat) (List Nat × Bool) :=
         | [] => .ok ([], true)
     else .ok (r2, false)
   | [] => .ok ([], false)
+
+/-- the exponent part is entered only `if self.at_exponent()` (repaired code, commit be24063) -/
+def lexExponent (r2 : List Nat) : Except (List Nat) (List Nat × Bool) :=
+  if atExponent r2 then lexExponentBody r2 else .ok (r2, false)
 
 def dropJ : List Nat → List Nat
   | c :: t => if isJ c then t else c :: t
